@@ -917,7 +917,7 @@ COMMUTATIVE = {'Add', 'Mul', 'BitOr', 'BitAnd', 'BitXor', 'Eq', 'Ne'}
 FLIP = {'Gt': 'Lt', 'Lt': 'Gt', 'Ge': 'Le', 'Le': 'Ge'}
 
 
-def canon(e, depth=0):
+def canon(e, depth=0, cd=99):
     """canonical, name-free normal form of an expression (A10): casts/refs/await/? transparent, commutative
     operands sorted, comparisons oriented (`a > b` printed as `b < a`), locals only when loop-carried"""
     if not isinstance(e, tuple) or not e:
@@ -926,6 +926,8 @@ def canon(e, depth=0):
         return '…'
     k = e[0]
     d = depth + 1
+    C = lambda x: canon(x, d, cd)
+    Cc = lambda x: canon(x, d, cd - 1)
     if k == 'const':
         return e[1]
     if k == 'constitem':
@@ -940,30 +942,32 @@ def canon(e, depth=0):
         return 'env'
     if k == 'field':
         if e[2] == '0' and e[1][0] == 'variant' and e[1][2] in ('Some', 'Ok', 'Ready', 'Continue'):
-            return canon(e[1][1], d)
-        return '%s.%s' % (canon(e[1], d), e[2])
+            return C(e[1][1])
+        return '%s.%s' % (C(e[1]), e[2])
     if k == 'variant':
-        return canon(e[1], d) if e[2] in ('Some', 'Ok', 'Ready', 'Continue') else '(%s as %s)' % (canon(e[1], d), e[2])
+        return C(e[1]) if e[2] in ('Some', 'Ok', 'Ready', 'Continue') else '(%s as %s)' % (C(e[1]), e[2])
     if k == 'index':
-        return '%s[%s]' % (canon(e[1], d), canon(e[2], d))
+        return '%s[%s]' % (C(e[1]), C(e[2]))
     if k == 'call':
         last = e[1].split('::')[-1]
         if is_result_adaptor(e[1]) and e[2]:
-            return canon(e[2][0], d)
+            return C(e[2][0])
         if last in ('unwrap', 'expect', 'unwrap_or_default') and e[2]:
-            return canon(e[2][0], d)
+            return C(e[2][0])
         if last in ('from', 'into', 'try_into', 'as_bytes_u64', 'as_bytes_usize') and len(e[2]) == 1:
-            return canon(e[2][0], d)
+            return C(e[2][0])
         nm = short(e[1])
         if nm.endswith('_mut'):
             nm = nm[:-4]
-        return '%s(%s)' % (nm, ', '.join(canon(a, d) for a in e[2]))
+        if cd <= 0:
+            return '%s(…)' % nm
+        return '%s(%s)' % (nm, ', '.join(Cc(a) for a in e[2]))
     if k in ('await', 'try'):
-        return canon(e[1], d)
+        return C(e[1])
     if k in ('poll', 'branch'):
-        return canon(e[1], d) if e[1] is not None else k
+        return C(e[1]) if e[1] is not None else k
     if k == 'bin':
-        a, b = canon(e[2], d), canon(e[3], d)
+        a, b = C(e[2]), C(e[3])
         op = e[1]
         if op in COMMUTATIVE and b < a:
             a, b = b, a
@@ -973,25 +977,26 @@ def canon(e, depth=0):
                'BitOr': '|', 'BitAnd': '&', 'BitXor': '^', 'Shl': '<<', 'Shr': '>>'}.get(op, op)
         return '(%s %s %s)' % (a, sym, b)
     if k == 'un':
-        return '%s(%s)' % ('!' if e[1] == 'Not' else e[1], canon(e[2], d))
+        return '%s(%s)' % ('!' if e[1] == 'Not' else e[1], C(e[2]))
     if k == 'agg':
         if e[1] in ('std::option::Option', 'std::result::Result') and e[2] in ('Some', 'Ok') and e[3]:
-            return canon(e[3][0][1], d)
-        return '%s::%s{%s}' % (e[1].split('::')[-1], e[2], ', '.join('%s: %s' % (n, canon(x, d)) for n, x in e[3]))
+            return C(e[3][0][1])
+        return '%s::%s{%s}' % (e[1].split('::')[-1], e[2], ', '.join('%s: %s' % (n, C(x)) for n, x in e[3]))
     if k in ('tuple', 'array'):
-        return '(%s)' % ', '.join(canon(x, d) for x in e[1])
+        return '(%s)' % ', '.join(C(x) for x in e[1])
     if k == 'closure':
         return 'closure'
     if k == 'discr':
-        return 'discr(%s)' % canon(e[1], d)
+        return 'discr(%s)' % C(e[1])
     if k == 'len':
-        return 'len(%s)' % canon(e[1], d)
+        return 'len(%s)' % C(e[1])
     if k == 'fnitem':
         return short(e[1])
     if k == 'overflow':
         return 'overflow'
     if k == 'phi':
-        return 'phi{%s}' % ' | '.join(sorted(canon(x, d) for x in e[1]))
+        alts = sorted(set(C(x) for x in e[1]))
+        return alts[0] if len(alts) == 1 else 'phi{%s}' % ' | '.join(alts)
     if k == 'upd':
-        return canon(e[1], d)
+        return C(e[1])
     return k
